@@ -19,4 +19,5 @@ CONSTANTS
   ScionMacErrPanics = FALSE
   ScionTsOptUnchecked = FALSE
   ScionTsOptTrusted = FALSE
-INVARIANTS TypeOK OutcomeConsistent NeverDead NoSpin SentinelNotLost
+  CmsgLenUnchecked = FALSE
+INVARIANTS TypeOK OutcomeConsistent NeverDead NoSpin EveryIterationAdvances SentinelNotLost
